@@ -179,7 +179,8 @@ def sweep_behaviours(thorough):
 def run(ctx, replay=None):
     ctx.build_lib()
     exe = ctx.cc("hwv_shmem.c", "hwv_shmem")
-    env = {"HWV_WATCHDOG": "120"}
+    # a small ASan quarantine keeps the recorder processes small: every behaviour forks a writer and adopters from them
+    env = {"HWV_WATCHDOG": "120", "ASAN_OPTIONS": "quarantine_size_mb=4"}
 
     def replay_fn(text):
         p = ctx.path("replay-%d.beh" % random.randrange(1 << 30))
